@@ -647,6 +647,20 @@ func (r *Run) acquire(st *State, fr *Frame, lr LockRef, mode LockMode, in ssa.In
 	// lock order: every lock already held must rank below the one acquired
 	r.orderCheck(st, fr, lr, in)
 	st.Locks = append(st.Locks, HeldLock{Class: lr.Class, Base: lr.Base, Key: lr.Key, Mode: mode})
+	// `never-locks label : lock-expr` — the function under analysis (with everything inlined into it) never waits for
+	// that lock: somebody holds it while waiting for this function to finish
+	if b := e.cs.Funcs[e.fnName[st.Frames[0].Fn]]; b != nil && !r.ownClausesOff(st, st.Frames[0]) {
+		for _, cl := range b.All("never-locks") {
+			if px, err := parseSpec(cl.Expr); err == nil {
+				c := e.clauseCtx(st, st.Frames[0], nil)
+				c.inLoop = true
+				if key, ok := c.eval(px).V.(T); ok && key.So == lr.Key.So {
+					e.emitWith(st, fmt.Sprintf("%s/never-locks:%s@acq#%d", e.fnName[st.Frames[0].Fn], cl.Label(), len(st.Path)), "", nil, Not(Eq(lr.Key, key)),
+						"acquisition at "+e.posOf(in)+" is not of "+cl.Expr, e.posOf(in), cl.Props, cl)
+				}
+			}
+		}
+	}
 	// waiting for a lock takes time: context checks made before the acquisition are stale (the holder may have
 	// cancelled the context in the meantime)
 	for k := range st.Ghost {
